@@ -235,8 +235,19 @@ def _map_to_station_ids(
     :param sim: the SimulationState provides h3 resolution and lookup tables
     :return: the price data organized by StationId
     """
+    def _specificity(k: str) -> Tuple[int, int, str]:
+        # entries are applied from the least to the most specific target, so that when several of
+        # them name the same station the most specific one wins, whatever the order of the Map:
+        # regions from coarse to fine resolution, then entries by station id
+        if k in sim.stations:
+            return 2, 0, k
+        try:
+            return 1, int(h3.h3_get_resolution(k)), k
+        except Exception:
+            return 0, 0, k
+
     updated = {}  # refactor using immutables.Map()?
-    for k in this_update.keys():
+    for k in sorted(this_update.keys(), key=_specificity):
         if k in sim.stations:
             # k is a StationId; leave as is
             updated.update({k: this_update[k]})
